@@ -114,6 +114,10 @@ class FnTranslator:
                 for a, k in kind[1].items():
                     if k == 'pair':
                         attrs[a] = V([S(f'{name}_{a}_0'), S(f'{name}_{a}_1')]); names += [f'{name}_{a}_0', f'{name}_{a}_1']
+                    elif k == 'pairk':
+                        # a pair that also carries its container type (list / tuple / ndarray …) as an Int tag
+                        attrs[a] = V([S(f'{name}_{a}_0'), S(f'{name}_{a}_1')]); attrs[a].kind = S(f'{name}_{a}_kind')
+                        names += [f'{name}_{a}_0', f'{name}_{a}_1', f'{name}_{a}_kind']
                     elif k == 'ext':
                         attrs[a] = V([S(f'{name}_{a}_{i}') for i in range(4)]); names += [f'{name}_{a}_{i}' for i in range(4)]
                     elif k == 'int':
@@ -150,6 +154,10 @@ class FnTranslator:
         if isinstance(a, V) and isinstance(b, S): return V([self.cmp(op, x, b) for x in a.items])
         if isinstance(a, V) and isinstance(b, V) and len(a.items) == len(b.items) and op in ('==', '!='):
             parts = [self.cmp('==', x, y) for x, y in zip(a.items, b.items)]
+            # Python `==` on sequences is container-sensitive ([1, 2] != (1, 2)): when both operands carry a container
+            # tag (param kind 'pairk') the tags must agree too; np.array_equal strips the tags (value equality only)
+            if getattr(a, 'kind', None) is not None and getattr(b, 'kind', None) is not None:
+                parts = [self.cmp('==', a.kind, b.kind)] + parts
             e = B('(' + ' && '.join(p.e for p in parts) + ')')
             return e if op == '==' else B(f'(!{e.e})')
         if not (isinstance(a, S) and isinstance(b, S)): raise Refuse(f'comparison on {type(a).__name__},{type(b).__name__}')
@@ -250,7 +258,9 @@ class FnTranslator:
                 if len(args) != 2 or not all(isinstance(a, S) for a in args): raise Refuse('max/min need two ints')
                 return S(f'({f.split(".")[-1]} {args[0].e} {args[1].e})')
             if f == 'slice' and len(args) == 2: return V(args)
-            if f == 'np.array_equal' and len(args) == 2: return self.cmp('==', args[0], args[1])
+            if f == 'np.array_equal' and len(args) == 2:
+                strip = lambda v: V(v.items) if isinstance(v, V) else v
+                return self.cmp('==', strip(args[0]), strip(args[1]))
             if f == 'any' and len(args) == 1 and isinstance(args[0], V) and args[0].items and all(isinstance(x, B) for x in args[0].items):
                 return B('(' + ' || '.join(x.e for x in args[0].items) + ')')
             if f == 'np.all' and len(args) == 1:
